@@ -402,19 +402,48 @@ class SimClock:
             self.advance(1)
         return d
 
-    def install(self):
-        """Replace the 'date' name propka.output imported.  Returns a note if
-        the seam is missing."""
-        import propka.output as out
-        if not hasattr(out, 'date'):
-            return 'propka.output.date missing: clock seam idle'
-        clock = self
+    def now(self):
+        d = self.today()
+        return _dt.datetime(d.year, d.month, d.day, 12, 0, 0)
 
-        class SimDate(_dt.date):
+    def install(self, modules=()):
+        """Own every calendar read: the date/datetime classes in the datetime
+        module namespace (for imports made later) and every reference to them
+        already held by a propka module.  Returns a note if nothing was
+        found to patch in propka (seam idle)."""
+        clock = self
+        real_date, real_datetime = _dt.date, _dt.datetime
+
+        class SimDate(real_date):
             @classmethod
             def today(cls):
                 return clock.today()
-        out.date = SimDate
+
+        class SimDateTime(real_datetime):
+            @classmethod
+            def now(cls, tz=None):
+                return clock.now()
+
+            @classmethod
+            def today(cls):
+                return clock.now()
+
+            @classmethod
+            def utcnow(cls):
+                return clock.now()
+        hits = 0
+        for mod in modules:
+            for name, val in list(vars(mod).items()):
+                if val is real_date:
+                    setattr(mod, name, SimDate)
+                    hits += 1
+                elif val is real_datetime:
+                    setattr(mod, name, SimDateTime)
+                    hits += 1
+        _dt.date = SimDate
+        _dt.datetime = SimDateTime
+        if not hits:
+            return 'no propka module holds datetime.date/datetime: clock seam covers late imports only'
         return None
 
 
